@@ -518,6 +518,13 @@ def gen_instant(src, named):
 
 def render(src, t, named):
     """a literal for the instant t: explicit offset or a curated zone (t moved to a stable instant of that zone)"""
+    if named and src.bool(0.2):
+        # minutes to hours away from a daylight-saving switch (zones whose 2008-2019 rules agree in both tz databases)
+        name = src.choice(zones.NEAR_ZONES)
+        secs = zones.near_switch_instant(src, name)
+        t = secs * cal.NS + t % cal.NS
+        off = zones.offset_at(name, secs)
+        return t, fmt_dt(cal.fields_from_instant(t, off), "@" + name)
     if named:
         name = src.choice(zones.CURATED)
         secs = zones.stable_instant(name, t // cal.NS)
